@@ -224,10 +224,150 @@ func PathExistsAvoiding(a, b ssa.Instruction, barrier func(ssa.Instruction) bool
 type Guard struct {
 	If     *ssa.If
 	Branch bool // true: the "then" edge (Succs[0]) must be taken
+	// Val, when set, is the boolean value the guard speaks about instead of
+	// If.Cond: a fact implied by the edge (see impliedGuards), "Val == Branch".
+	Val ssa.Value
 }
 
-// Guards returns all conditional edges that every entry→sink path traverses.
+// impliedGuards: the facts that hold when the given edge of iff is taken — the
+// condition itself and, when the condition is a boolean kept in a variable
+// (ok := a && b; if ok …: a phi of booleans), what its value implies: if only
+// one incoming edge of the phi can carry the value the branch needs, the path
+// came through that edge, so the guards of that predecessor, the edge's own
+// condition and the incoming value hold as well.
+func impliedGuards(g Guard, depth int) []Guard {
+	out := []Guard{g}
+	if depth > 3 {
+		return out
+	}
+	v := g.If.Cond
+	if g.Val != nil {
+		v = g.Val
+	}
+	want := g.Branch
+	for {
+		if u, ok := v.(*ssa.UnOp); ok && u.Op == token.NOT {
+			v, want = u.X, !want
+			continue
+		}
+		break
+	}
+	phi, ok := v.(*ssa.Phi)
+	if !ok {
+		return out
+	}
+	if b, isB := phi.Type().Underlying().(*types.Basic); !isB || b.Kind() != types.Bool {
+		return out
+	}
+	via := -1
+	for i, e := range phi.Edges {
+		if c, isK := ConstBool(e); isK && c != want {
+			continue // this edge cannot carry the needed value
+		}
+		if via >= 0 {
+			return out // two edges may carry it: nothing more is known
+		}
+		via = i
+	}
+	if via < 0 || via >= len(phi.Block().Preds) {
+		return out
+	}
+	pred := phi.Block().Preds[via]
+	last := pred.Instrs[len(pred.Instrs)-1]
+	// the incoming value itself
+	if _, isK := ConstBool(phi.Edges[via]); !isK {
+		out = append(out, impliedGuards(Guard{If: g.If, Branch: want, Val: phi.Edges[via]}, depth+1)...)
+	}
+	// the edge pred → phi block
+	if pif, isIf := last.(*ssa.If); isIf && len(pred.Succs) == 2 && pred.Succs[0] != pred.Succs[1] {
+		out = append(out, impliedGuards(Guard{If: pif, Branch: pred.Succs[0] == phi.Block()}, depth+1)...)
+	}
+	// what dominates the predecessor
+	for _, pg := range guardsRaw(last) {
+		out = append(out, impliedGuards(pg, depth+1)...)
+	}
+	return out
+}
+
+// guardImplies: taking the edge of g guarantees a comparison that match
+// accepts — the condition itself, or, for a condition kept in a boolean
+// variable (a phi), a fact on *every* way the variable can have the needed
+// value: for each incoming edge that can carry it, the incoming value, the
+// edge's own condition or a guard of that predecessor must match. One way is
+// a conjunction (ok := a && b, true edge), several are a disjunction each
+// alternative of which has to match (ok := a || b, true edge, with a
+// predicate that accepts a and accepts b).
+func guardImplies(g Guard, match func(Cmp) bool, depth int) bool {
+	c := g.Cmp()
+	if match(c) || match(c.Swap()) {
+		return true
+	}
+	if depth > 3 {
+		return false
+	}
+	v := g.If.Cond
+	if g.Val != nil {
+		v = g.Val
+	}
+	want := g.Branch
+	for {
+		if u, ok := v.(*ssa.UnOp); ok && u.Op == token.NOT {
+			v, want = u.X, !want
+			continue
+		}
+		break
+	}
+	phi, ok := v.(*ssa.Phi)
+	if !ok {
+		return false
+	}
+	if b, isB := phi.Type().Underlying().(*types.Basic); !isB || b.Kind() != types.Bool {
+		return false
+	}
+	ways := 0
+	for i, e := range phi.Edges {
+		if k, isK := ConstBool(e); isK && k != want {
+			continue
+		}
+		if i >= len(phi.Block().Preds) {
+			return false
+		}
+		ways++
+		pred := phi.Block().Preds[i]
+		last := pred.Instrs[len(pred.Instrs)-1]
+		okWay := false
+		if _, isK := ConstBool(e); !isK && guardImplies(Guard{If: g.If, Branch: want, Val: e}, match, depth+1) {
+			okWay = true
+		}
+		if pif, isIf := last.(*ssa.If); !okWay && isIf && len(pred.Succs) == 2 && pred.Succs[0] != pred.Succs[1] {
+			okWay = guardImplies(Guard{If: pif, Branch: pred.Succs[0] == phi.Block()}, match, depth+1)
+		}
+		if !okWay {
+			for _, pg := range guardsRaw(last) {
+				if guardImplies(pg, match, depth+1) {
+					okWay = true
+					break
+				}
+			}
+		}
+		if !okWay {
+			return false
+		}
+	}
+	return ways > 0
+}
+
+// Guards returns all conditional edges that every entry→sink path traverses,
+// together with the facts those edges imply (impliedGuards).
 func Guards(sink ssa.Instruction) []Guard {
+	var out []Guard
+	for _, g := range guardsRaw(sink) {
+		out = append(out, impliedGuards(g, 0)...)
+	}
+	return out
+}
+
+func guardsRaw(sink ssa.Instruction) []Guard {
 	fn := sink.Parent()
 	var out []Guard
 	entry := fn.Blocks[0]
@@ -260,6 +400,9 @@ type Cmp struct {
 // guarded edge (negating for the else edge, unwrapping !).
 func (g Guard) Cmp() Cmp {
 	v := g.If.Cond
+	if g.Val != nil {
+		v = g.Val
+	}
 	neg := !g.Branch
 	for {
 		if u, ok := v.(*ssa.UnOp); ok && u.Op == token.NOT {
@@ -962,9 +1105,8 @@ func SuccessReturns(fn *ssa.Function) []*ssa.Return {
 // GuardedBy reports whether sink is guarded by a comparison satisfying match
 // (tried in both operand orders).
 func GuardedBy(sink ssa.Instruction, match func(Cmp) bool) bool {
-	for _, g := range Guards(sink) {
-		c := g.Cmp()
-		if match(c) || match(c.Swap()) {
+	for _, g := range guardsRaw(sink) {
+		if guardImplies(g, match, 0) {
 			return true
 		}
 	}
@@ -1442,8 +1584,9 @@ func EdgesWhere(fn *ssa.Function, match func(Cmp) bool) map[[2]*ssa.BasicBlock]b
 			continue
 		}
 		for k := 0; k < 2; k++ {
-			c := Guard{If: iff, Branch: k == 0}.Cmp()
-			if match(c) || match(c.Swap()) {
+			// the edge's own condition, or a fact it implies (a condition kept in a
+			// boolean variable)
+			if guardImplies(Guard{If: iff, Branch: k == 0}, match, 0) {
 				out[[2]*ssa.BasicBlock{b, b.Succs[k]}] = true
 			}
 		}
